@@ -216,19 +216,21 @@ AuthnSeqs == { <<<<>>, <<>>>> } \cup { << <<i>>, <<e>> >> : i \in {"s1", ""}, e 
              \cup { << <<i, j>>, <<e, f>> >> : i \in {"s1", ""}, j \in {"s2", ""}, e \in EndPos, f \in EndPos }
 AuthnFew  == { <<<<>>, <<>>>>, << <<"s1">>, <<"none">> >>, << <<"s1">>, <<"beyond">> >>, << <<"">>, <<"inside">> >>,
                << <<"s1", "s2">>, <<"before", "beyond">> >> }
-LifeInputs(l) ==
-  CASE Family = "C16q" -> { LifeAssn(a[1], a[2], "none", "none", g) : a \in AuthnSeqs, g \in LifeAges(l) }
-                          \cup { LifeAssn(a[1], a[2], c, s, g) : a \in AuthnFew, c \in EndPos, s \in EndPos, g \in LifeAges(l) }
-    [] Family = "C16t" -> { LifeAssn(a[1], a[2], c, s, g) : a \in AuthnSeqs, c \in EndPos, s \in EndPos, g \in LifeAges(l) }
-LifeCases == UNION { { <<c, a>> : a \in LifeInputs(c.life) } : c \in IF Family = "C16q" THEN DiagCfgs ELSE FourCfgs }
+\* every AuthnStatement layout without other ends, a few layouts with every combination of the
+\* Conditions and SubjectConfirmationData ends; C16t: the full product under the diagonal configurations
+LifeSel(c, a, cd, sc) == IF Family = "C16t" /\ c \in DiagCfgs THEN TRUE
+                         ELSE IF cd = "none" /\ sc = "none" THEN TRUE ELSE a \in AuthnFew
+LifeCfgs == IF Family = "C16q" THEN DiagCfgs ELSE FourCfgs
 
 ----------------------------------------------------------------------------
 Init == /\ \/ /\ part = "token" /\ (\E p \in TokCases : cfg = p[1] /\ in = p[2])
               /\ pc = <<"sess", "Cookie">>
            \/ /\ part = "map" /\ (\E p \in MapCases : cfg = p[1] /\ in = p[2])
               /\ pc = <<"map", "Times">>
-           \/ /\ part = "life" /\ (\E p \in LifeCases : cfg = p[1] /\ in = p[2])
-              /\ pc = <<"map", "Times">>
+           \/ /\ part = "life" /\ pc = <<"map", "Times">>
+              /\ \E c \in LifeCfgs, a \in AuthnSeqs, cd \in EndPos, sc \in EndPos :
+                    /\ LifeSel(c, a, cd, sc)
+                    /\ \E g \in LifeAges(c.life) : cfg = c /\ in = LifeAssn(a[1], a[2], cd, sc, g)
         /\ res = [sess |-> [verdict |-> "none", step |-> "none"], trk |-> [verdict |-> "none", step |-> "none"]]
         /\ err = "none" /\ out = "none"
         /\ subj = "" /\ claims = [k \in Keys |-> <<>>] /\ si = 1 /\ ai = 1 /\ ni = 1
